@@ -26,7 +26,7 @@ def records(data):
 
 def evaluate(chk, cases, label):
     impl = vlib.run_impl("lcov_rt", cases, chk.pid, parallel=4)
-    exprs = [vlib.app("run_rt", c["k"], c["branch"], [(list(bytes.fromhex(n)), gen.cov_coq(cv)) for n, cv in c["results"]]) for c in cases]
+    exprs = [vlib.app("run_rt", c["k"], c["branch"], [(list(bytes.fromhex(n)), gen.cov_coq(cv)) for n, cv in c["results"]]) if c.get("model", True) else "0" for c in cases]
     model = vlib.run_model(chk.pid, "Run.Show", exprs)
     dis = []
     dist = {"non_ascii": 0, "with_branches": 0, "saturated": 0, "empty": 0}
@@ -46,6 +46,9 @@ def evaluate(chk, cases, label):
         if c["branch"] and any(o != outs[0] for o in outs[1:]):
             chk.violation({"kind": "oracle", "engine": "lcov_rt", "case": c, "clause": "re-exported report differs from the first export (as record sets, summary lines included)",
                            "first": bytes.fromhex(ri["outs"][0]).decode("latin-1"), "later": [bytes.fromhex(o).decode("latin-1") for o in ri["outs"][1:]]}, tag=label)
+            continue
+        if not c.get("model", True):
+            chk.nontrivial(["long-vector", c["k"], c["branch"], [len(v) for _, cv in rs for _, v in cv["branches"]]])
             continue
         if isinstance(rm, tuple) and rm and rm[0] == "@@ERROR":
             dis.append({"case": c, "model": rm})
@@ -98,20 +101,141 @@ def cli_iteration(chk, n):
             chk.nontrivial(["cli", i])
 
 
+SRC_TREE = ["src/a.c", "src/gen/x.c", "lib/y.c", "gen/z.c", "src/deep/er/w.c"]
+
+
+BUILD_PREFIX = "/builds/worker/checkouts"
+
+
+def spellings(rng, root, rel):
+    """ways an input can name the source file <root>/proj/<rel> (all of them end up as the same report path under -s <root>/proj)"""
+    d, b = os.path.split(rel)
+    out = [rel, rel, os.path.join(root, "proj", rel), "proj/" + rel, d + "/./" + b, d + "//" + b]
+    other = "lib" if not rel.startswith("lib") else "src"
+    out.append(other + "/../" + rel)
+    return rng.choice(out)
+
+
+def strip_sf(recs, sub):
+    """record sets with the SF paths that start with sub + '/' shortened by it (the effect of the known class below)"""
+    out = []
+    for sec in recs:
+        sec2 = []
+        for l in sec:
+            if l.startswith(b"SF:" + sub.encode() + b"/"):
+                l = b"SF:" + l[4 + len(sub):]
+            sec2.append(l)
+        out.append(sorted(sec2))
+    return sorted(out)
+
+
+def option_chain(chk, root, blobs, opts, branch, threads, known):
+    """grcov in OPTS > r1; grcov r1 OPTS > r2; grcov r2 OPTS > r3: all equal as record sets.  Returns the last report or None."""
+    ind = os.path.join(root, "in")
+    os.makedirs(ind, exist_ok=True)
+    for j, b in enumerate(blobs):
+        open(os.path.join(ind, "i%d.info" % j), "wb").write(b)
+    # known class C05/prefix-dir-inside-source-dir: -p names a directory strictly inside the -s directory
+    sdir = opts[opts.index("-s") + 1]
+    pdir = opts[opts.index("-p") + 1] if "-p" in opts else None
+    inside = pdir.startswith(sdir + "/") if pdir else False
+    prev, cur_args = None, [ind]
+    for k in range(3):
+        rc, out, err = pipeline.run_cli(cur_args, threads[k % len(threads)], branch, cwd=root, extra=opts)
+        chk.count()
+        hist = {"inputs": [b.decode() for b in blobs], "options": [o.replace(root, "<root>") for o in opts], "tree": SRC_TREE, "round": k}
+        if rc != 0:
+            chk.violation(dict(hist, kind="oracle", engine="cli", clause="re-import run failed", status=rc, stderr=err[-500:]), tag="cli-opts")
+            return None
+        if prev is not None and records(out) != records(prev):
+            if inside and "prefix-dir-inside-source-dir" in known and records(out) == strip_sf(records(prev), pdir[len(sdir) + 1:]):
+                chk.known(known["prefix-dir-inside-source-dir"])
+            else:
+                chk.violation(dict(hist, kind="oracle", engine="cli", clause="with the same filtering and path options, the report after re-import differs from the report it was made from",
+                                   before=prev.decode("latin-1"), after=out.decode("latin-1")), tag="cli-opts")
+                return None
+        prev = out
+        p = os.path.join(root, "r%d.info" % k)
+        open(p, "wb").write(out)
+        cur_args = [p]
+    return prev
+
+
+def make_tree(root):
+    for rel in SRC_TREE:
+        os.makedirs(os.path.dirname(os.path.join(root, "proj", rel)), exist_ok=True)
+        open(os.path.join(root, "proj", rel), "w").write("int x;\n" * 12)
+
+
+def cli_options_iteration(chk, n):
+    """the same chain with filtering and path options: the options decide on some spelling of a path; whatever they decided
+    for r1 must be what they decide on r1's own paths."""
+    rng = chk.rng
+    used = {}
+    known = {e["key"]: e for e in vlib.known_findings(chk.pid) if e.get("status") == "known"}
+    # fixed witness of the known class (every run)
+    root = vlib.scratch("c05o_w")
+    make_tree(root)
+    option_chain(chk, root, [b"SF:proj/src/gen/x.c\nDA:1,1\nDA:2,0\nend_of_record\n"],
+                 ["-s", os.path.join(root, "proj"), "-p", os.path.join(root, "proj", "src")], True, [1], known)
+    for i in range(n):
+        root = vlib.scratch("c05o_%d" % i)
+        make_tree(root)
+        opts = ["-s", os.path.join(root, "proj")]
+        r = rng.random()
+        if r < 0.45:
+            opts += ["--ignore", rng.choice(["src/gen/*", "gen/*", "lib/*", "src/deep/**", "src/*"])]
+        elif r < 0.8:
+            opts += ["--keep-only", rng.choice(["src/*", "src/gen/*", "lib/*", "gen/*", "**/er/*"])]
+        if rng.random() < 0.3:
+            opts += ["--ignore-not-existing"]
+        if rng.random() < 0.2:
+            opts += ["--filter", rng.choice(["covered", "uncovered"])]
+        pre = None
+        if rng.random() < 0.3:
+            pre = rng.choice(["proj", BUILD_PREFIX, BUILD_PREFIX])      # a -p inside -s is the known class: witness above only
+            opts += ["-p", pre]
+        blobs = []
+        for j in range(rng.randrange(1, 4)):
+            names = [spellings(rng, root, rel) for rel in rng.sample(SRC_TREE, rng.randrange(1, 4))]
+            if pre == BUILD_PREFIX:
+                names = [BUILD_PREFIX + "/" + nm if not nm.startswith("/") and rng.random() < 0.6 else nm for nm in names]
+            if rng.random() < 0.3:
+                names.append("gone/q.c")
+            blobs.append(pipeline.make_info(rng, j, names, repeat_sf=0.0))
+        for o in opts:
+            if o.startswith("--") or o in ("-s", "-p"):
+                used[o] = used.get(o, 0) + 1
+        last = option_chain(chk, root, blobs, opts, rng.random() < 0.7, [rng.choice([1, 2, 4]) for _ in range(3)], known)
+        if last is not None:
+            chk.nontrivial(["cli-opts", i, len(records(last))])
+    return used
+
+
 def run(chk):
     chk.proofs()
     n = 300 if chk.tier == "quick" else 5000
     cases = [{"results": gen_results(chk.rng), "branch": chk.rng.random() < 0.75, "k": chk.rng.choice([1, 2, 3])} for _ in range(n)]
+    # long branch vectors (a generated switch, JaCoCo's per-line counters): grcov writes BRDA numbers as large as the vector is long
+    # and must read them all back; the lengths sit around powers of two.  The model runs the short ones only.
+    lens = [255, 256, 257, 1023, 1024, 1025, 1500, 4095, 4096, 4097] + ([] if chk.tier == "quick" else [65535, 65536, 65537, 100000])
+    for ln in lens:
+        rng = chk.rng
+        v = [rng.random() < 0.5 for _ in range(ln)]
+        v[-1] = rng.random() < 0.7
+        cv = {"lines": [[7, 3]], "branches": [[7, v], [9, [True, False]]], "funcs": []}
+        cases.append({"results": [[gen.hexname("src/big_switch.c"), cv]], "branch": True, "k": rng.choice([1, 2]), "model": ln <= 1100})
     dist = evaluate(chk, cases, "gen")
     cli_iteration(chk, 6 if chk.tier == "quick" else 80)
+    dist["cli_option_chains"] = cli_options_iteration(chk, 24 if chk.tier == "quick" else 300)
     chk.extra["distribution"] = dist
     chk.cov["rule"] = ("random result sets (0-5 files, UTF-8 paths and function names with commas, boundary counts, vectors of length 1-6) written by output_lcov and "
                        "re-read by parse_lcov k = 1..3 times in-process: implementation vs Gallina output_lcov/parse_lcov (reports compared as record sets, results exactly) "
-                       "and the round-trip property evaluated on the implementation; plus CLI chains grcov in -> r1 -> r2 -> .. (2-4 rounds, 1-4 threads); "
+                       "and the round-trip property evaluated on the implementation; plus CLI chains grcov in -> r1 -> r2 -> .. (2-4 rounds, 1-4 threads), without options and with -s plus --ignore / --keep-only / --ignore-not-existing / --filter / -p over inputs that spell the source files in several ways (absolute, ./, //, .., parent-relative); "
                        "non-trivial = non-empty result set that agreed everywhere; distinct by content")
     chk.cov["trusted_base"] = ["Coq kernel; vm_compute for the correspondence", "std++ gmap (map_to_list order differs from the implementation's hash-map order: reports compared as record sets)",
                                "impl_run harness, Python record reader", "demangling disabled (the property's own proviso)"]
-    chk.assumptions = ["paths and function names contain no CR/LF (the property's hypothesis)", "path rewriting options are exercised by C11, not here"]
+    chk.assumptions = ["paths and function names contain no CR/LF (the property's hypothesis)", "the path rewriting function itself is proved and compared in C11; here the options are only required to be idempotent over a re-import"]
 
 
 def replay(chk, path):
